@@ -371,6 +371,54 @@ CoAwait(i) ==
     /\ NoAlloc
     /\ UNCHANGED nextH
 
+(* cocls::parallel_resume(std::move(sp[i])) resume.h:96-106: a non-empty object's BASE (the handles, the
+   block) is moved into a new detached thread which clear()s it there (no queue installed in that
+   thread: resumed in array order); the value stays attached and a copy of it is returned
+   (await_resume).  The replayer waits for the end of that thread.  Not generated with the own handle
+   inside (the running driver would be resumed by the other thread). *)
+ParResume(i) ==
+    /\ Tick("ParResume") /\ sp[i].live /\ ~SelfIn(sp[i].h)
+    /\ ret' = sp[i].val /\ rmf' = sp[i].mv
+    /\ burst' = sp[i].h
+    /\ resumed' = Bump(resumed, sp[i].h)
+    /\ IF sp[i].h = <<>>
+         THEN UNCHANGED <<sp, blocks>>       \* await_ready: no thread, nothing moved (a retained block stays)
+         ELSE /\ sp' = [sp EXCEPT ![i] = Cleared(sp[i])]
+              /\ blocks' = blocks - B2N(sp[i].heap)
+    /\ NoAlloc /\ Quiet
+    /\ UNCHANGED <<nextH, queue, mode>>
+
+(* slot k := coro_queue::create_suspend_point(fn) suspend_point.h:318-345, where fn makes the handles
+   of object j ready by clear()ing / discarding it (j = 0: fn readies nothing) and then returns (the
+   value k if t) or throws.  With a queue installed while fn runs, what fn queues lands behind what
+   was queued before; on return it is taken from the BACK of the queue, one by one, into the new
+   suspend point (so in reverse order), the older entries are not touched.  If fn throws nothing is
+   collected: in coroutine mode what fn queued stays queued behind the older entries; outside
+   coroutine mode the queue was installed just for the call and is flushed while the exception
+   unwinds.  The exception reaches the caller (ret = Thrown).  Not generated: a throwing fn that
+   readies the own handle outside coroutine mode (the running driver would be resumed). *)
+Thrown == MaxH + 2
+Reverse(s) == [n \in 1..Len(s) |-> s[Len(s) + 1 - n]]
+CreateSP(k, j, thr, t) ==
+    /\ Tick("CreateSP") /\ IsFree(k) /\ (j # 0 => sp[j].live)
+    /\ LET A == IF j = 0 THEN <<>> ELSE sp[j].h
+           src == IF j = 0 THEN sp ELSE [sp EXCEPT ![j] = Cleared(sp[j])]
+           freed == IF j = 0 THEN 0 ELSE B2N(sp[j].heap)
+       IN IF thr
+            THEN /\ (SelfIn(A) => mode = "coro")
+                 /\ sp' = src
+                 /\ Emit(A)
+                 /\ blocks' = blocks - freed
+                 /\ ret' = Thrown /\ NoAlloc
+            ELSE /\ LET r == AddRun(Fresh(t, IF t THEN k ELSE 0, <<>>), Reverse(A))
+                    IN /\ sp' = [src EXCEPT ![k] = r.o]
+                       /\ dalloc' = r.a
+                       /\ blocks' = blocks - freed + B2N(r.o.heap)
+                 /\ burst' = <<>> /\ ret' = 0
+                 /\ UNCHANGED <<resumed, queue>>
+    /\ rmf' = FALSE /\ Quiet
+    /\ UNCHANGED <<nextH, mode>>
+
 (* co_await cocls::pause() coro_queue.h:211-219: everything queued runs before the driver.
    Not generated while the own handle waits in the queue (the driver would be queued twice). *)
 Pause ==
@@ -417,6 +465,8 @@ Next == \/ \E k \in Slots, t \in Types : ConstructEmpty(k, t) \/ ConstructH(k, t
         \/ \E k \in Slots, i \in Slots, kind \in Kinds : MoveConstruct(k, i, kind)
         \/ \E i \in Slots : AddHandle(i) \/ AddSelf(i) \/ Pop(i) \/ Clear(i) \/ Destroy(i) \/ CoAwait(i)
         \/ \E i \in Slots, kind \in ReadKinds : Read(i, kind)
+        \/ \E i \in Slots : ParResume(i)
+        \/ \E k \in Slots, j \in 0..MaxObj, thr \in BOOLEAN, t \in Types : CreateSP(k, j, thr, t)
         \/ \E i \in Slots, n \in 1..MaxH : AddFill(i, n)
         \/ \E i \in Slots, n \in Targets : AddTo(i, n)
         \/ \E i \in Slots, j \in Slots : MergeShl(i, j) \/ MoveAssign(i, j)
@@ -504,7 +554,7 @@ ValuePreserved ==
 (* all reads of one object agree: whatever a read / co_await returns is the attached value, which
    the read leaves alone *)
 ReadsAgree ==
-    [][(ret' # 0 /\ burst' = <<>> /\ dres' = 0 /\ sp' = sp /\ selfReady' = selfReady) =>
+    [][(ret' # 0 /\ ret' # Thrown /\ burst' = <<>> /\ dres' = 0 /\ sp' = sp /\ selfReady' = selfReady) =>
           \E i \in Slots : sp[i].live /\ sp[i].ty /\ ret' = sp[i].val /\ rmf' = sp[i].mv]_vars
 
 (* handles leave an object in array order (to the queue, or resumed), except that co_await resumes
